@@ -19,13 +19,13 @@ Theorem C13_wrap1_range d :
 Proof. exact (wrap1_range d). Qed.
 Print Assumptions C13_wrap1_range.
 
-Theorem C13_pair_min_correct (m : metric (T:=R)) (a1 a2 : satom (T:=R)) (ops : list (sop (T:=R))) :
-  match pair_min ROps m ops a1 a2 with
-  | Some (d, n) => exists s, nth_error ops n = Some s /\ qualifies m a1 a2 n s /\ d = biased n (dk_of m a1 a2 s) /\
-                             forall n' s', nth_error ops n' = Some s' -> qualifies m a1 a2 n' s' -> d <= biased n' (dk_of m a1 a2 s')
-  | None => forall n' s', nth_error ops n' = Some s' -> ~ qualifies m a1 a2 n' s'
+Theorem C13_pair_min_correct (m : metric (T:=R)) (same : bool) (a1 a2 : satom (T:=R)) (ops : list (sop (T:=R))) :
+  match pair_min ROps m ops same a1 a2 with
+  | Some (d, n) => exists s, nth_error ops n = Some s /\ qualifies m same a1 a2 n s /\ d = biased n (dk_of m a1 a2 s) /\
+                             forall n' s', nth_error ops n' = Some s' -> qualifies m same a1 a2 n' s' -> d <= biased n' (dk_of m a1 a2 s')
+  | None => forall n' s', nth_error ops n' = Some s' -> ~ qualifies m same a1 a2 n' s'
   end.
-Proof. exact (pair_min_correct m a1 a2 ops). Qed.
+Proof. exact (pair_min_correct m same a1 a2 ops). Qed.
 Print Assumptions C13_pair_min_correct.
 
 Theorem C13_bond_rule (a1 a2 : satom (T:=R)) (d : R) : 0 < d ->
